@@ -6,7 +6,7 @@
     pageInfo was selected, how each getter call handed over its result, the response and the
     (min, max, limit) triples the getter received. *)
 From Coq Require Import List NArith ZArith Bool String.
-From ApiFu Require Import Base.Sexp TimeConn.TimeModel TimeConn.TimeSpec TimeConn.TimeErrModel.
+From ApiFu Require Import Base.Sexp TimeConn.TimeModel TimeConn.TimeSpec TimeConn.TimeErrModel TimeConn.TimeCursorCodec.
 Import ListNotations.
 Open Scope string_scope.
 
@@ -20,10 +20,16 @@ Inductive obs :=
 | ObCrash | ObHang | ObError (msgs : list emsg) | ObMalformed
 | ObPage (edges : list edge) (cursors : list ocur) (info : option oinfo) (total : option Z).
 
+(** the cursor strings as they travelled: per edge, startCursor, endCursor *)
+Record rawcur := { rc_edges : list bytes; rc_start : bytes; rc_end : bytes }.
+
 Record step := {
   s_args : args; s_sel : sel; s_tc : tcres; s_xpres : list xpres; s_obs : obs;
   s_calls : list (query * list edge);     (* each triple the getter received, and its answer *)
   s_raised : list Z;                      (* per call: 0 = no error, 1 = an error, 2 = a typed nil error *)
+  s_after_raw : option bytes;             (* the after / before argument strings as sent *)
+  s_before_raw : option bytes;
+  s_raw : option rawcur;                  (* the cursor strings of the response *)
   s_tccalls : Z                           (* calls of ResolveTotalCount *)
 }.
 Definition s_info (s : step) : bool := want_info (s_sel s).
@@ -139,7 +145,7 @@ Definition dec_obs (s : sexp) : option obs :=
       else if String.eqb t "malformed" then Some ObMalformed
       else if String.eqb t "page" then
         match l with
-        | [SL es; SL cs; i; tot] =>
+        | SL es :: SL cs :: i :: tot :: _ =>
             match map_opt dec_edge es, map_opt dec_ecur cs, dec_oinfo i, as_option as_Z tot with
             | Some es', Some cs', Some i', Some tot' => Some (ObPage es' cs' i' tot')
             | _, _, _, _ => None
@@ -165,6 +171,29 @@ Definition dec_raised (s : sexp) : option Z :=
   | _ => None
   end.
 
+Definition dec_raw (o : sexp) : option rawcur :=
+  match untag o with
+  | Some (_, [_; _; _; _; r]) =>
+      match tagged "raw" r with
+      | Some [SL cs; st; en] =>
+          match map_opt as_bytes cs, as_bytes st, as_bytes en with
+          | Some cs', Some st', Some en' => Some {| rc_edges := cs'; rc_start := st'; rc_end := en' |}
+          | _, _, _ => None
+          end
+      | _ => None
+      end
+  | _ => None
+  end.
+
+Definition dec_rawarg (name : string) (a : sexp) : option bytes :=
+  match tagged "args" a with
+  | Some l => match field1 name l with
+              | Some x => match as_option as_bytes x with Some (Some b) => Some b | _ => None end
+              | None => None
+              end
+  | None => None
+  end.
+
 Definition dec_step (s : sexp) : option step :=
   match tagged "step" s with
   | Some (a :: l) =>
@@ -177,7 +206,9 @@ Definition dec_step (s : sexp) : option step :=
                   match as_bool t, dec_tc tc, as_Z n with
                   | Some t', Some tc', Some n' =>
                       Some {| s_args := a'; s_sel := {| want_info := i'; want_total := t' |}; s_tc := tc';
-                              s_xpres := ps'; s_obs := o'; s_calls := ts'; s_raised := rs'; s_tccalls := n' |}
+                              s_xpres := ps'; s_obs := o'; s_calls := ts'; s_raised := rs'; s_tccalls := n';
+                              s_after_raw := dec_rawarg "afterraw" a; s_before_raw := dec_rawarg "beforeraw" a;
+                              s_raw := dec_raw o |}
                   | _, _, _ => None
                   end
               | _, _, _ => None
@@ -341,6 +372,48 @@ Definition oracle_step (E : list edge) (g : query -> list edge) (i : nat) (s : s
         end end end end end end end
   end.
 
+(** ** The cursor codec against the strings that travelled *)
+Definition cursor_arg_eqb (a b : cursor_arg) : bool :=
+  match a, b with
+  | CAbsent, CAbsent => true
+  | CInvalid, CInvalid => true
+  | CCursor x, CCursor y => cursor_eqb x y
+  | _, _ => false
+  end.
+
+(** the argument strings decode (model of DeserializeCursor) to what the harness says the real
+    DeserializeCursor made of them; the emitted strings are the model's serialisation of the cursors
+    the harness decoded from them *)
+Definition compare_codec (i : nat) (s : step) : option sexp :=
+  let bad (what : string) := Some (v_mismatch what [of_nat i]) in
+  let arg_ok raw c := match arg_of_wire raw with Some m => cursor_arg_eqb m c | None => true end in
+  if negb (arg_ok (s_after_raw s) (a_after (s_args s)) && arg_ok (s_before_raw s) (a_before (s_args s)))
+  then bad "cursor-decoding"
+  else
+    match s_obs s, s_raw s with
+    | ObPage _ cs info _, Some r =>
+        let enc_ok (c : ocur) (raw : bytes) :=
+          match c with
+          | OcSome e => bytes_eqb (tb_encode e) raw
+          | OcNone => match raw with [] => true | _ => false end
+          | OcBad => true
+          end in
+        let fix all2 (a : list ocur) (b : list bytes) : bool :=
+          match a, b with
+          | [], [] => true
+          | x :: a', y :: b' => enc_ok x y && all2 a' b'
+          | _, _ => false
+          end in
+        if negb (all2 cs (rc_edges r)) then bad "cursor-encoding"
+        else match info with
+             | Some oi => if enc_ok (oi_start oi) (rc_start r) && enc_ok (oi_end oi) (rc_end r) then None
+                          else bad "pageinfo-cursor-encoding"
+             | None => None
+             end
+    | ObPage _ _ _ _, None => bad "raw-cursors-missing"
+    | _, _ => None
+    end.
+
 (** ** The model against the observation *)
 Definition compare_step (E : list edge) (g : query -> list edge) (i : nat) (s : step) : option sexp :=
   let a := s_args s in
@@ -485,6 +558,10 @@ Definition step_classes (E : list edge) (g : query -> list edge) (s : step) : li
                  | XPanic, XPanic => true
                  | _, _ => false
                  end)) "typed-nil-error-fix-matters"
+  ++ cond (match arg_of_wire (s_after_raw s), arg_of_wire (s_before_raw s) with Some _, Some _ => false | _, _ => true end)
+          "cursor-string-outside-codec-model"
+  ++ cond (match s_after_raw s, s_before_raw s with
+           | Some (_ :: _), _ => true | _, Some (_ :: _) => true | _, _ => false end) "cursor-string-decoded-by-model"
   ++ cond (want_total (s_sel s)) "total-count"
   ++ cond (tc_fails s) "total-count-error"
   ++ cond (want_total (s_sel s) && match fst (fst xm), snd (fst xm) with XPage _ _ _, [] => true | _, _ => false end) "total-count-without-fetch"
@@ -527,7 +604,7 @@ Definition check (c : sexp) : sexp :=
                 match first_some (oracle_step E g) 0 steps with
                 | Some v => v
                 | None =>
-                    match first_some (compare_step E g) 0 steps with
+                    match first_some (fun i s => match compare_step E g i s with Some v => Some v | None => compare_codec i s end) 0 steps with
                     | Some v => v
                     | None =>
                         let cls := dedup (flat_map (step_classes E g) steps) in
